@@ -320,7 +320,7 @@ def one_history(impl, R):
                                 continue
                             here = _json.loads(_json.dumps(_pr.canon(impl, _cmp, impl.call(qfn(q, x, y)))))
                             there = Pristine.ask(q, da, db)
-                            if here != there and not (isinstance(there, list) and there and there[0] == 'pristine-error'):
+                            if not _pr.same_answer(here, there) and not (isinstance(there, list) and there and there[0] == 'pristine-error'):
                                 h.problems.append('after %s the answer of %s(%s%d, %s%d), asked before the move as well, is %r; freshly built operands in a process that has run nothing else give %r (operands %s, %s)' % (
                                     h.log[-1], q, h.env[xi]['kind'].lower(), xi, h.env[yi]['kind'].lower(), yi, here, there, da, db))
             elif c < 0.80:
@@ -376,7 +376,7 @@ def one_history(impl, R):
                     here = _pr.canon(impl, _cmp, impl.call(fn))
                     there = Pristine.ask(q, da, db)
                     import json as _json
-                    if _json.loads(_json.dumps(here)) != there and not (isinstance(there, list) and there and there[0] == 'pristine-error'):
+                    if not _pr.same_answer(_json.loads(_json.dumps(here)), there) and not (isinstance(there, list) and there and there[0] == 'pristine-error'):
                         h.problems.append('the answer of %s(%s%d, %s%d) depends on the history: %r here, %r in a process that has run nothing else (operands %s, %s)' % (
                             q, h.env[i]['kind'].lower(), i, h.env[j]['kind'].lower(), j, here, there, gen.tok(da)[:80] if da[0] != 'V' else da, gen.tok(db)[:80] if db[0] != 'V' else db))
         if h.problems:
